@@ -67,7 +67,8 @@ def main(tier):
             o = P.outcome(lambda: db.AddUnit(other, "verif duplicate", r["unit"], "%f", "%f"))
             refused += o[0] != "ok"
         rep.cov["refused_registrations_before_the_forms"] = refused
-        values = [1.5, -2.0, 0.0, 12345.678, 3, numpy.float64(2.25), numpy.float64(-0.5), 1e-7]
+        values = [1.5, -2.0, 0.0, 12345.678, 3, numpy.float64(2.25), numpy.float64(-0.5), 1e-7,
+                  0.1 + 0.2, 100 * 1.1, 255.92777777777778, -2.0 / 3.0]      # ... and doubles that need all 17 significant digits to be told from their neighbours
 
         def forms_for(u, c, given):
             v = values[(len(events) + len(u)) % len(values)]
